@@ -13,6 +13,11 @@ HAPSETS = {
     4: [[0, 0, 0], [0, 1, 1], [1, 1, 0], [1, 0, 1]],
     5: [[0, 0, 0], [0, 1, 1], [1, 1, 0], [1, 0, 1], [2, 1, 1]],
 }
+# the same allele sequence listed twice (distinct allele numbers, identical likelihood)
+HAPSETS_DUP = {
+    3: [[0, 0], [0, 1], [0, 1]],
+    4: [[0, 0, 0], [0, 1, 1], [1, 1, 0], [0, 1, 1]],
+}
 ERR = [0.03, 0.08, 0.15, 0.01, 0.25]
 
 
@@ -30,7 +35,9 @@ def freq_options(H):
 class CallInstance:
     def __init__(self, H, P, fname, F, seed=0, read_variant=0):
         self.H, self.P, self.F, self.fname = H, P, F, fname
-        self.haps = np.array(HAPSETS[H], np.int8)
+        dup = fname.endswith("+dup")
+        fname = fname[:-4] if dup else fname
+        self.haps = np.array((HAPSETS_DUP if dup else HAPSETS)[H], np.int8)
         self.freqs = dict(freq_options(H))[fname]
         self.farr = None if self.freqs is None else np.array(self.freqs, float)
         self.fref = [1.0 / H] * H if self.freqs is None else list(self.freqs)
